@@ -1862,10 +1862,24 @@ def kernels_inventory(repo="/repo"):
         attempt(sp["fam"], sp["lean"], "%s: %s" % (sp["file"], (sp["fn"].__doc__ or "").strip().split("\n")[0]),
                 lambda sp=sp: sp["fn"](src_of(sp["file"])))
     import inventory_kernels_code as KC
-    tr = KC.Translator(repo)
+    import inventory_kernels_glue as KG
+    tr = KG.GlueTranslator(repo)
+    code_specs += list(KG.GLUE)
     for cs in code_specs:
         inst = []
-        if cs.get("expand"):
+        if cs.get("header"):
+            inst.append("in `impl %s`" % cs["header"])
+        if cs.get("tsub"):
+            inst.append(", ".join("%s = %s" % kv for kv in sorted(cs["tsub"].items())))
+        if cs.get("tconsts"):
+            inst.append(", ".join("%s = %s" % (k, v[1] if isinstance(v, tuple) else v) for k, v in sorted(cs["tconsts"].items())))
+        if cs.get("extern"):
+            inst.append("extern: " + ", ".join(sorted(cs["extern"])))
+        if cs.get("params"):
+            inst.append("parameters given by a named primitive: " + ", ".join(sorted(cs["params"])))
+        if isinstance(cs.get("expand"), list):
+            inst.append("; ".join("invocation %d of %s!" % (w, n) for n, w in cs["expand"]))
+        elif cs.get("expand"):
             inst.append("invocation %d of %s!" % (cs["expand"][1], cs["expand"][0]))
         if cs.get("lens"):
             inst.append(", ".join("%s.len() = %d" % kv for kv in sorted(cs["lens"].items())))
@@ -1908,13 +1922,16 @@ def render_lean(inv):
           "  (table OPS of the translator), and the instantiations of the generic kernels named below:"]
     Ls += trusted_table_lines()
     import inventory_kernels_code as KC
+    import inventory_kernels_glue as KG
     Ls += KC.trusted_table_lines2()
-    Ls += ["-/", "import CC.Simd.Mach", "set_option linter.unusedVariables false", "namespace CC.Gen.Kernels",
-           "open CC.Simd", "",
+    Ls += KG.trusted_table_lines3()
+    Ls += ["-/", "import CC.Simd.Mach", "import CC.Buffer.BlockBuffer", "set_option linter.unusedVariables false",
+           "namespace CC.Gen.Kernels", "open CC.Simd", "",
            "/-- `for _ in 0..n { x = f(x) }` -/",
            "def iter {α : Type} (f : α → α) : Nat → α → α",
            "  | 0, x => x",
            "  | n + 1, x => iter f n (f x)", ""]
+    Ls += KG.PRELUDE.split("\n")
     for fam in FAMILIES:
         Ls.append("/-! ## %s -/" % fam)
         Ls.append("")
